@@ -543,6 +543,69 @@ void FlattenCase(Ctx& ctx, bool inner_shared) {
             "the SharedFuture returned by the step no longer holds the Result that was set (moved-from or changed)");
 }
 
+// ------------------------------------------------------------------------------------------------
+// The continuation destroys the object that owns the Promise (a session object completing itself and going away).
+// Set() must have let go of the shared state before it runs continuations: the Promise destroyed from inside its own
+// Set() - or by the consumer thread while the producer is still inside Set() - must not complete the state again.
+void OwnerCase(Ctx& ctx) {
+  using R = Result<Tracked, MyError>;
+  struct Owner {
+    yaclib::Promise<Tracked, MyError> p;
+    Tracked guard{77};
+  };
+  ResetTags();
+  int pk = static_cast<int>(ctx.rng.Below(3));
+  int code = static_cast<int>(ctx.rng.In(1, 1000000));
+  u32 pj = ctx.rng.Below(5), cj = ctx.rng.Below(5);
+  int attach = static_cast<int>(ctx.rng.Below(2));  // 0 DetachInline, 1 ThenInline
+  Expect exp = Expected<Tracked>(pk, code);
+  ctx.Class(kProducerName[pk]);
+  ctx.Note("the %s continuation deletes the owner of the Promise; producer=%s code=%d pre-yields p=%u c=%u ",
+           attach == 0 ? "DetachInline" : "ThenInline", kProducerName[pk], code, pj, cj);
+  Shared sh;
+  Obs obs;
+  {
+    auto [f0, p0] = yaclib::MakeContract<Tracked, MyError>();
+    auto f = std::move(f0);
+    auto* owner = new Owner{std::move(p0)};
+    yaclib::Future<void, MyError> tail;
+    yaclib_std::thread producer([&] {
+      Jitter(pj);
+      VF_W(sh.side, "C04,C01");
+      sh.side = code;
+      sh.set_call = Stamp();
+      // `owner` may be gone as soon as the result is published: nothing of it is used after this call
+      if (pk == kVal) {
+        std::move(owner->p).Set(Tracked{code});
+      } else if (pk == kErr) {
+        std::move(owner->p).Set(MyError{code});
+      } else {
+        std::move(owner->p).Set(std::make_exception_ptr(MyException{code}));
+      }
+      sh.set_ret = Stamp();
+    });
+    yaclib_std::thread consumer([&] {
+      Jitter(cj);
+      auto cb = [&obs, &sh, owner](R&& r) {
+        Digest<Tracked>(obs, r, sh);
+        delete owner;
+      };
+      if (attach == 0) {
+        std::move(f).DetachInline(cb);
+      } else {
+        tail = std::move(f).ThenInline(cb);
+      }
+    });
+    producer.join();
+    consumer.join();
+    if (tail.Valid()) {
+      yaclib::Wait(tail);
+    }
+  }
+  ctx.SetNontrivial(true);
+  CheckObs(ctx, obs, exp, sh, 1, "continuation that destroys the Promise's owner");
+}
+
 void Dispatch(Ctx& ctx, int ck, bool allow_moveonly, bool allow_void) {
   u32 n = 1 + (allow_moveonly ? 1 : 0) + (allow_void ? 1 : 0);
   u32 k = ctx.rng.Below(n);
@@ -565,6 +628,9 @@ VF_CELL(flatten_unique, "flatten/inner-future", "C02,C01,C03,C04", 6) {
 }
 VF_CELL(flatten_shared, "flatten/inner-shared-future", "C02,C06,C03,C04", 6) {
   FlattenCase(ctx, true);
+}
+VF_CELL(owner_destroyed, "continuation-destroys-promise-owner", "C01,C03,C04", 5) {
+  OwnerCase(ctx);
 }
 VF_CELL(then_inline, "then-inline", "C01,C03,C04", 10) {
   Dispatch(ctx, cThenInline, true, true);
